@@ -7,7 +7,7 @@ use std::hash::Hash;
 use cassadilia::{BlobHash, KeyBytes};
 
 pub const NK: usize = 4;
-pub const CONTENT_NAMES: [&str; 6] = ["A", "B", "C", "E", "G", "H"];
+pub const CONTENT_NAMES: [&str; 7] = ["A", "B", "C", "E", "G", "H", "M"];
 
 pub trait HKey: KeyBytes + Clone + Eq + Ord + Hash + Debug + Send + Sync + 'static {
     /// Four keys, ascending, for the key-type variant `kt`.
@@ -78,6 +78,7 @@ pub fn content_size(name: &str) -> usize {
         "E" => 0,
         "G" => 70000,
         "H" => 300000, // larger than any plausible internal read step (256 KiB)
+        "M" => 1_200_000, // more than 1 MiB ("large blob" thresholds)
         _ => panic!("unknown content {name}"),
     }
 }
